@@ -82,6 +82,7 @@ TRANSLATORS = {
     "GenDeMoor": "gen_demoor",
     "GenMirjalili": "gen_mirjalili",
     "GenHendrix": "gen_hendrix",
+    "GenForest": "gen_forest",
 }
 
 
